@@ -66,7 +66,7 @@ func runNative(l *loaded, dir string, tapes []nativeTape) ([]nativeOutcome, stri
 	}
 	var tb strings.Builder
 	fmt.Fprintf(&tb, "package %s\n\nimport (\n\t\"os\"\n\t\"testing\"\n\tverifrt \"github.com/pokt-network/pocket-core/verifrt\"\n)\n\n", pkgName)
-	tb.WriteString("func TestVerifReplay(t *testing.T) {\n\trc := verifrt.RunNative(os.Getenv(\"VERIF_TAPE\"), map[string]func(){\n")
+	tb.WriteString("func TestVerifReplay(t *testing.T) {\n\tverifrt.SetT(t)\n\trc := verifrt.RunNative(os.Getenv(\"VERIF_TAPE\"), map[string]func(){\n")
 	for _, n := range names {
 		fmt.Fprintf(&tb, "\t\t%q: %s,\n", n, n)
 	}
@@ -80,7 +80,7 @@ func runNative(l *loaded, dir string, tapes []nativeTape) ([]nativeOutcome, stri
 	tapePath := filepath.Join(tmp, "tapes.json")
 	tj, _ := json.Marshal(tapes)
 	os.WriteFile(tapePath, tj, 0o644)
-	cmd := exec.Command("go", "test", "-vet=off", "-count=1", "-overlay", ovPath, "-run", "^TestVerifReplay$", "-v", "-timeout", "20m", "./"+dir)
+	cmd := exec.Command("go", "test", "-tags", "verifnative", "-vet=off", "-count=1", "-overlay", ovPath, "-run", "^TestVerifReplay$", "-v", "-timeout", "20m", "./"+dir)
 	cmd.Dir = *flagRepo
 	cmd.Env = append(os.Environ(), "GOFLAGS=-mod=mod", "GOPROXY=off", "GOSUMDB=off", "GOTOOLCHAIN=local", "VERIF_TAPE="+tapePath)
 	var buf bytes.Buffer
